@@ -269,8 +269,12 @@ def with_history(fn):
     def wrapped(c, *a, **k):
         prev = c.get("after") if isinstance(c, dict) else None
         if isinstance(prev, dict):
+            import warnings
+            import numpy as _np
             try:
-                fn(prev, *a, **k)
+                with warnings.catch_warnings(), _np.errstate(all="ignore"):
+                    warnings.simplefilter("ignore")
+                    fn(prev, *a, **k)
             except Exception:      # noqa: BLE001 — only history
                 pass
         return fn(c, *a, **k)
